@@ -39,6 +39,8 @@ FACTORS = [  # first value = default (what shrinking moves towards)
     ("initial_position", [False, True]),
     ("export_operator_outputs", [False, True]),
     ("total_iterations", [2, 3, 4]),
+    # how the user declares the callbacks (inspect / terminate / transitions): all are "functions with one (two) argument(s)"
+    ("callback_form", ["plain", "default_arg", "partial", "object", "method", "starargs"]),
 ]
 DEFAULT = {k: v[0] for k, v in FACTORS}
 ENV_EVENTS = ["keep", "rmdirs", "push_sseq"]
@@ -135,6 +137,48 @@ def model_parts():
     return ift.GaussianEnergy(d, inverse_covariance=icov) @ op, dom, a
 
 
+def shape_callback(form, fn, nargs):
+    """Declare `fn` (taking exactly `nargs` positional arguments) the way a user might."""
+    import functools
+    if form == "plain" or fn is None:
+        return fn
+    if form == "default_arg":      # last parameter has a default value
+        if nargs == 1:
+            def cb_d1(x=None):
+                return fn(x)
+            return cb_d1
+
+        def cb_d2(x, iglobal=None):
+            return fn(x, iglobal)
+        return cb_d2
+    if form == "partial":          # extra leading parameter bound with functools.partial
+        if nargs == 1:
+            return functools.partial(lambda tag, x: fn(x), "tag")
+        return functools.partial(lambda tag, x, i: fn(x, i), "tag")
+    if form in ("object", "method"):
+        if nargs == 1:
+            class C1:
+                def __call__(self, x):
+                    return fn(x)
+
+                def meth(self, x):
+                    return fn(x)
+            return C1() if form == "object" else C1().meth
+
+        class C2:
+            def __call__(self, x, i):
+                return fn(x, i)
+
+            def meth(self, x, i):
+                return fn(x, i)
+        return C2() if form == "object" else C2().meth
+    if form == "starargs":
+        if nargs == 1:
+            return lambda *args: fn(*args)
+        return fn                  # what a bare *args callback receives is not documented: keep the plain form
+    raise ValueError(form)
+
+
 def invoke(env, cfg):
     """One call of the real driver; returns observations."""
     import nifty.cl as ift
@@ -164,7 +208,7 @@ def invoke(env, cfg):
         def trans(i):
             obs["transition_calls"].append(i)
             return None if i == 0 else (lambda sl: sl.average())
-        kw["transitions"] = trans
+        kw["transitions"] = shape_callback(cfg.get("callback_form", "plain"), trans, 1)
 
     def grab(sl, i):
         m = sl.mean if hasattr(sl, "mean") else sl.local_item(0)
@@ -179,19 +223,19 @@ def invoke(env, cfg):
         def cb1(sl):
             obs["inspect"].append(("1arg", None))
             grab(sl, obs["first_index"] + next(seq))
-        kw["inspect_callback"] = cb1
+        kw["inspect_callback"] = shape_callback(cfg.get("callback_form", "plain"), cb1, 1)
     elif cfg["inspect_callback"] == "2arg":
         def cb2(sl, i):
             obs["inspect"].append(("2arg", i))
             grab(sl, i)
-        kw["inspect_callback"] = cb2
+        kw["inspect_callback"] = shape_callback(cfg.get("callback_form", "plain"), cb2, 2)
     if cfg["terminate_callback"] != "none":
         at = int(cfg["terminate_callback"][2:])
 
         def term(i):
             obs["terminate"].append(i)
             return i >= at
-        kw["terminate_callback"] = term
+        kw["terminate_callback"] = shape_callback(cfg.get("callback_form", "plain"), term, 1)
     if cfg["fresh_stochasticity"] == "callable":
         kw["fresh_stochasticity"] = lambda i: i == 0
     if cfg["initial_position"]:
